@@ -237,6 +237,7 @@ class Exec(ExprMixin, StmtMixin, CallMixin):
         if n == 'joined':
             v = self.ev(a[0], p)
             if isinstance(v, VStr) and len(v.atoms) == 1 and isinstance(v.atoms[0], tuple) and v.atoms[0][0] == 'join': return v.atoms[0][2]
+            if isinstance(v, VList) and v.kind == 'tok': return v          # a line assembled token by token (declared 'linetoks'): ' '.join of its tokens
             raise StaleContract('joined() of a string that is not a join')
         if n == 'after':
             # after(s, 'label'): the atoms of skeleton s that follow the literal label, up to the next newline
